@@ -1,5 +1,6 @@
 import Nstd.Json.LemmasGen
 import Nstd.Json.LemmasExact
+import Nstd.Json.Props
 /-
   Property C15, the tie by TRANSLATION.  `Nstd.Generated.JsonCode` is written on every run by tools/gen_json.py
   (tools/gen_json_cxx.py: tokenizer + parser of a C++ subset + symbolic execution) from the CURRENT
@@ -227,5 +228,54 @@ example : readStr 9 1 [] [97, 92, 117, 49, 120, 34, 0] = .fail 1 [120, 34, 0] :=
 example : StrStop ([97] ++ [92, 117] ++ [49]) [120, 34, 0] :=
   .badHex [97] [49] _ 120 (by decide) (by decide) rfl (by decide)
 example : readStr 9 1 [] [92, 117, 100, 56, 48, 48, 120, 34, 0] = .fail 1 [120, 34, 0] := by rfl
+
+/-! ## the recursive-descent parser, translated -/
+
+/-- `Json::Private::parseValue` with `parseArray` / `parseObject` executed in place, as written today, IS the model's
+    `parseValue` / `arrLoop` / `objLoop` - for every budget and every parser state (the three generated functions are the
+    model's three mutual functions, fuel for fuel; the out-parameter `Variant& result` is the value returned, `List::append`
+    is `acc ++ [v]`, `HashMap::append(key, …)` is `mapAppend` with its repeated-key rule, `readToken()` is `St.next`) -/
+theorem translated_parser (f : Nat) :
+    (∀ st, JsonCode.parseValue f st = parseValue f st) ∧
+    (∀ st acc, JsonCode.pvL0 f st acc = arrLoop f acc st) ∧
+    (∀ st acc key, JsonCode.pvL1 f st acc key = objLoop f acc st) :=
+  gen_parser f
+
+/-- `Json::Private::parse(data, result)` glued from the translated pieces (the three statements `pos.line = 1; pos.pos = start;
+    if(!readToken()) …; if(!parseValue(result)) …` are written here by hand): translated tokenizer, then translated parser -/
+def translatedParse (buf : List Byte) : Res Val :=
+  (JsonCode.readToken (buf.length + 2) 1 buf).bind fun st =>
+    (JsonCode.parseValue (parseFuel buf) st).bind fun x => .ok x.1
+
+/-- on every NUL-terminated buffer the translated parser is the model's parser -/
+theorem translated_parse (buf : List Byte) (h : 0 ∈ buf) : translatedParse buf = parseRaw buf := by
+  unfold translatedParse parseRaw
+  rw [translated_readToken buf 1 buf (Pos.init buf h) _ (Nat.le_refl _)]
+  congr 1
+  funext st
+  rw [(gen_parser (parseFuel buf)).1 st]
+
+/-- `parse_total` / `parse_no_oob` over the TRANSLATED parser: it terminates within its budget and reads nothing behind the
+    terminator, for every NUL-terminated buffer -/
+theorem translated_parse_total_safe (buf : List Byte) (h : 0 ∈ buf) :
+    translatedParse buf ≠ .nofuel ∧ translatedParse buf ≠ .oob := by
+  rw [translated_parse buf h]
+  have := parseRaw_post buf h
+  constructor <;> (intro e; rw [e] at this; exact this)
+
+/-- `roundtrip` over the TRANSLATED parser: for every tree of the property, the code of today parses the text of `toString`
+    back to the tree (an int64 that fits 32 bits comes back as int) -/
+theorem translated_roundtrip (v : Val) (h : wf v) : translatedParse (toString v ++ [0]) = .ok (norm v) := by
+  rw [translated_parse _ (by simp)]
+  have := roundtrip_through_rfc v h
+  rw [parse_eq_raw] at this
+  cases e : parseRaw (toString v ++ [0]) with
+  | ok x => rw [e] at this; simp only [PRes.ok.injEq] at this; rw [this]
+  | fail l p => rw [e] at this; cases this
+  | oob => rw [e] at this; cases this
+  | nofuel => rw [e] at this; cases this
+
+example : translatedParse [91, 49, 44, 123, 34, 97, 34, 58, 110, 117, 108, 108, 125, 93, 0]
+    = .ok (.list [.int 1, .map [([97], .null)]]) := by rfl
 
 end Nstd.Json
